@@ -93,8 +93,9 @@ Theorem C07_deterministic : forall D (dlen : D -> Z) (dnil : D) (w : nat)
 Proof. exact @layout_deterministic. Qed.
 Print Assumptions C07_deterministic.
 
-(** Metadata.  With the defect switch off the root carries exactly the requested
-    mode/mtime; the code as it is (switch on) does so whenever the root is not a
+(** Metadata.  With the defect switch off (= balanced.Layout with
+    fixes/C07-1: a raw root that must carry attributes is put under a File node)
+    the root carries exactly the requested mode/mtime; the code as it is (switch on) does so whenever the root is not a
     raw block; and it does NOT for a one-chunk balanced import with raw leaves
     (finding C07-1, replayed on the real code by the harness corpus). *)
 Theorem C07_meta : forall D (dlen : D -> Z) (dnil : D) (w : nat) lk raw req cs t m,
